@@ -136,12 +136,8 @@ def hasEntry : Bytes → Nat → Bool
     unbe8 s0 s1 s2 s3 s4 s5 s6 s7 == sec || hasEntry rest sec
   | _, _ => false
 
-/-- the first `k` events and `j` bytes of the next one -/
-def prefixActs (acts : List Act) (k j : Nat) : List Act :=
-  acts.take k ++
-    (match acts[k]? with
-     | some (.append i f bs) => if j = 0 then [] else [Act.append i f (bs.take j)]
-     | _ => [])
+/-- the first `k` events and `j` bytes of the next one: the model's own notion of a crash state -/
+def prefixActs (acts : List Act) (k j : Nat) : List Act := crashPrefix acts k j
 
 structure Searcher where
   crash : Bool
